@@ -18,7 +18,7 @@
    an answer, and without record classes (D = 0) the same fuel suffices. *)
 From Coq Require Import ZArith List Bool Lia.
 From KV Require Import Base.PyVal Base.Prims Model.Validator Model.Sem
-     Proofs.Typed Proofs.Mono Proofs.FixRec Proofs.Fixpoint.
+     Model.Derive Proofs.Typed Proofs.Mono Proofs.FixRec Proofs.Fixpoint Proofs.DeriveP Proofs.DeriveC Proofs.DeriveD Corr.UserLib.
 Import ListNotations.
 Open Scope nat_scope.
 
@@ -39,6 +39,22 @@ Theorem C17_fixpoint_records_partial :
       fp_ok E D v -> run E m fuel v x = OValid w -> run E m (fuel + D) v w = OValid w.
 Proof. exact run_fix_fuel. Qed.
 Print Assumptions C17_fixpoint_records_partial.
+
+(* "derived validators accept the dataclass / named-tuple values they produce, coercing validators accept
+   their own target type unchanged": for a validator derived from an annotation (default resolution) inside
+   the completeness fragment of C07 ([dplain], [dident]), whatever it returns is returned again unchanged -
+   the payload has the annotated type (C07_sound) and a value of the type is accepted as it is
+   (C07_complete_default_partial).  Not a consequence of the theorems above: those are about validator trees
+   in [fp_ok], this one is about annotations, unions with coercing variants under Optional included. *)
+Theorem C17_derived_fixpoint_partial :
+  forall E,
+    (forall k x y, oracle E k x = Some y -> exact_type y (okind_type k) = true) ->
+    forall a, dplain E a = true -> dident a = true ->
+    forall v, derive false a = Ok v ->
+    forall n n' x w, run E Sync n v x = OValid w -> aheight a < n' -> hproper E w = true ->
+      run E Sync n' v w = OValid w.
+Proof. exact derived_fixpoint. Qed.
+Print Assumptions C17_derived_fixpoint_partial.
 
 (* every validator kind: an answer other than "out of fuel" is the answer at every larger fuel *)
 Theorem C17_fuel_is_an_artefact :
@@ -123,3 +139,25 @@ Section Example.
        = OValid (VDict [(VStr [107], VSet [VObj 0%nat [(VStr [97], VInt 1); (VStr [98], VInt 5)]])]).
   Proof. split; vm_compute; reflexivity. Qed.
 End Example.
+
+(* the derived-validator theorem is not vacuous: a dataclass with an Optional[Tuple[Decimal, ...]] field,
+   given as a mapping holding a list of strings, comes back as an instance holding a tuple of Decimals,
+   and that instance is accepted unchanged *)
+Section ExampleDerived.
+  Open Scope Z_scope.
+  Definition fa := VStr [97].
+  Definition dec1 := VDecimal (DFin false 1 0).
+  Definition Ed : env := mk_env [Build_cls (CkData false) false [(fa, None)]] [] [(OkDecimal, (VStr [49], Some dec1))] [] [] [].
+  Definition Ad := ARecord RkData 0%nat [(fa, (AUnion [ATupleU (AScalar KDecimal); ANone], true))].
+  Definition wd := VObj 0%nat [(fa, VTuple [dec1])].
+  Example C17_nonvacuous_derived :
+    dplain Ed Ad = true /\ dident Ad = true /\ hproper Ed wd = true /\ (aheight Ad < 6)%nat /\
+    exists v, derive false Ad = Ok v /\
+              run Ed Sync 6 v (VDict [(fa, VList [VStr [49]])]) = OValid wd /\
+              run Ed Sync 6 v wd = OValid wd.
+  Proof.
+    split; [vm_compute; reflexivity|]. split; [vm_compute; reflexivity|]. split; [vm_compute; reflexivity|].
+    split; [apply Nat.ltb_lt; vm_compute; reflexivity|].
+    eexists. split; [vm_compute; reflexivity|]. split; vm_compute; reflexivity.
+  Qed.
+End ExampleDerived.
